@@ -40,6 +40,10 @@ def gen_cases(tier, seed):
                       'workers': r.choice([1, 2]), 'batch': 0, 'fuzz': False, 'process': True, 'seed': r.randrange(1 << 30)})
     for i in range(3 if tier == 'quick' else 20):
         cases.append({'scenario': 'wait-bound', 'mode': 'async' if i % 2 else 'sync', 'capacity': 1, 'seed': rng.randrange(1 << 30)})
+    # the same bound while competing callers keep taking every freed slot: the waiter is woken again and again and loses each race
+    for i in range(4 if tier == 'quick' else 24):
+        cases.append({'scenario': 'wait-bound', 'contended': True, 'mode': 'sync' if i % 2 else 'async', 'capacity': 1 + (i // 2) % 2,
+                      'service': [0.05, 0.02, 0.1][i % 3], 'seed': rng.randrange(1 << 30)})
     return cases
 
 
@@ -99,6 +103,8 @@ def run_case(case):
     dr = watch.DeathRecorder().install()
 
     if case['scenario'] == 'wait-bound':
+        if case.get('contended'):
+            return _wait_bound_contended(case, viol, obs, SV, real_threading, dr)
         return _wait_bound(case, viol, obs, SV, real_threading, dr)
 
     kw = {'batch_size': case['batch'], 'batch_wait_time': 0.002} if case['batch'] else {}
@@ -309,6 +315,100 @@ def run_case(case):
     if viol or case.get('process'):
         res['exit_after'] = True
     return res
+
+
+def _wait_bound_contended(case, viol, obs, SV, real_threading, dr):
+    """`capacity` closed-loop callers keep the server full for 3.5 s (each takes the slot its own finished request freed); a request
+    without backpressure and timeout 0.4 s is woken at every completion, finds the server full again, and must still give up (or be
+    served) by its own deadline.  Verdict margin 1.5 s; the hogs run 3.5 s, so a waiter whose allowance restarts at every wake-up
+    ends at about 3.5 s."""
+    from mpservice.mpserver import AsyncServer, Server, ServerBacklogFull, ThreadServlet
+
+    cap = case['capacity']
+    servlet = ThreadServlet(ST.TagWorker, tag='A', num_threads=cap)
+    svc = case['service']
+    T, H = 0.4, 3.5
+    box = {'hog_calls': 0, 'hog_rejected': 0}
+
+    def tok(c, i):
+        return ('tok', c, i, (('A', 'sleep', svc),))
+
+    def sync_run():
+        with Server(servlet, capacity=cap) as server:
+            stop = time.monotonic() + H
+
+            def hog(c):
+                i = 0
+                while time.monotonic() < stop:
+                    try:
+                        server.call(tok(c, i), timeout=10)
+                        box['hog_calls'] += 1
+                    except ServerBacklogFull:
+                        box['hog_rejected'] += 1
+                        time.sleep(0.001)
+                    i += 1
+
+            ths = [threading.Thread(target=hog, args=(c,), name=f'hog-{c}') for c in range(cap)]
+            for t in ths:
+                t.start()
+            while server.backlog < cap:
+                time.sleep(0.001)
+            t0 = time.monotonic()
+            try:
+                box['short'] = server.call(tok(99, 0), timeout=T, backpressure=False)
+            except BaseException as e:  # noqa: BLE001
+                box['short'] = e
+            box['elapsed'] = time.monotonic() - t0
+            for t in ths:
+                t.join()
+
+    async def async_run():
+        async with AsyncServer(servlet, capacity=cap) as server:
+            stop = time.monotonic() + H
+
+            async def hog(c):
+                i = 0
+                while time.monotonic() < stop:
+                    try:
+                        await server.call(tok(c, i), timeout=10)
+                        box['hog_calls'] += 1
+                    except ServerBacklogFull:
+                        box['hog_rejected'] += 1
+                        await asyncio.sleep(0.001)
+                    i += 1
+
+            hs = [asyncio.ensure_future(hog(c)) for c in range(cap)]
+            while server.backlog < cap:
+                await asyncio.sleep(0.001)
+            t0 = time.monotonic()
+            try:
+                box['short'] = await server.call(tok(99, 0), timeout=T, backpressure=False)
+            except Exception as e:  # noqa: BLE001
+                box['short'] = e
+            box['elapsed'] = time.monotonic() - t0
+            await asyncio.gather(*hs)
+
+    try:
+        watch.run_bounded((lambda: asyncio.run(async_run())) if case['mode'] == 'async' else sync_run, 60, 'contended wait-bound scenario')
+    except watch.Hang as h:
+        viol.append({'mech': 'backlog/hang', 'msg': 'contended wait-bound scenario did not finish', 'stacks': h.stacks})
+        return {'violations': viol, 'obs': obs, 'exit_after': True}
+    finally:
+        SV.threading = real_threading
+        dr.uninstall()
+    obs['requests'] = 1 + box['hog_calls'] + box['hog_rejected']
+    obs['wait_bound_runs'] = 1
+    obs['wait_bound_contended_runs'] = 1
+    obs['competing_completions_during_wait'] = box['hog_calls']
+    el = box.get('elapsed', 0)
+    if el > T + 1.5:
+        viol.append({'mech': 'backlog/no-backpressure-wait-exceeds-timeout',
+                     'msg': f'request with timeout {T} s and backpressure=False got {box.get("short")!r:.80} after {el:.2f}s while {cap} competing caller(s) kept the server full'})
+    elif isinstance(box.get('short'), (ServerBacklogFull, TimeoutError)):
+        obs['rejected_after_wait'] = 1
+    return {'violations': viol, 'obs': obs, 'nontrivial': box['hog_calls'] >= 5, 'sig': hash(('wait-bound-c', case['mode'], case['seed'])) & 0xFFFFFFFFFFFF,
+            'sample': {'scenario': 'wait-bound-contended', 'mode': case['mode'], 'capacity': cap, 'short_request_outcome': repr(box.get('short'))[:120],
+                       'waited_s': round(el, 3), 'competing_calls': box['hog_calls']}}
 
 
 def _wait_bound(case, viol, obs, SV, real_threading, dr):
